@@ -21,8 +21,26 @@ def chopRoundNat (x : Int) : Int :=
 
 def chopRound (x : Int) : Int := if x < 0 then - chopRoundNat (-x) else chopRoundNat x
 
+/-- `big.Int.Quo` (truncated division) written with floor division on non-negative operands so
+that `omega` can reason about it; `tdiv_eq` shows it is `Int.tdiv`. -/
+def tdiv (a b : Int) : Int :=
+  if 0 ≤ a then (if 0 ≤ b then a / b else -(a / (-b)))
+  else (if 0 ≤ b then -((-a) / b) else (-a) / (-b))
+
+theorem tdiv_eq (a b : Int) : tdiv a b = Int.tdiv a b := by
+  unfold tdiv
+  by_cases ha : 0 ≤ a <;> by_cases hb : 0 ≤ b <;> simp only [ha, hb, if_true, if_false]
+  · exact (Int.tdiv_eq_ediv_of_nonneg ha).symm
+  · have : b = -(-b) := by omega
+    rw [this, Int.tdiv_neg, Int.tdiv_eq_ediv_of_nonneg ha]; simp
+  · have : a = -(-a) := by omega
+    rw [this, Int.neg_tdiv, Int.tdiv_eq_ediv_of_nonneg (by omega)]; simp
+  · have h1 : a = -(-a) := by omega
+    have h2 : b = -(-b) := by omega
+    rw [h1, h2, Int.neg_tdiv, Int.tdiv_neg, Int.tdiv_eq_ediv_of_nonneg (by omega)]; simp
+
 /-- `chopPrecisionAndTruncate`: truncation toward zero. -/
-def chopTrunc (x : Int) : Int := Int.tdiv x precision
+def chopTrunc (x : Int) : Int := tdiv x precision
 
 structure Dec where
   raw : Int
@@ -34,10 +52,10 @@ def add (a b : Dec) : Dec := ⟨a.raw + b.raw⟩
 def sub (a b : Dec) : Dec := ⟨a.raw - b.raw⟩
 def mul (a b : Dec) : Dec := ⟨chopRound (a.raw * b.raw)⟩
 def mulInt (a : Dec) (i : Int) : Dec := ⟨a.raw * i⟩
-def quoInt (a : Dec) (i : Int) : Dec := ⟨Int.tdiv a.raw i⟩
+def quoInt (a : Dec) (i : Int) : Dec := ⟨tdiv a.raw i⟩
 /-- `Quo`; `none` models the division-by-zero panic of `big.Int.Quo`. -/
 def quo? (a b : Dec) : Option Dec :=
-  if b.raw = 0 then none else some ⟨chopRound (Int.tdiv (a.raw * precision * precision) b.raw)⟩
+  if b.raw = 0 then none else some ⟨chopRound (tdiv (a.raw * precision * precision) b.raw)⟩
 def trunc (a : Dec) : Int := chopTrunc a.raw
 def one : Dec := ofInt 1
 def zero : Dec := ⟨0⟩
